@@ -226,3 +226,57 @@ chain_func = Unit(
 )
 
 UNITS = [get_charnos_rw, step, loop, final_sort, apply_rewrites, fix_wrapper, chain_func]
+
+
+# ----------------------------------------------------------------------------- duplicate elimination (C10, C06)
+def slice_dedupe(fn):
+    """inside the loop over funcs: from `seen_transactions = set()` through the loop that collects duplicate_transaction_keys"""
+    outer = [n for n in fn.body if isinstance(n, ast.For)]
+    if not outer:
+        raise NotGenerated("_schedule_rewrites: no outer loop over funcs")
+    body = outer[0].body
+    idx = [k for k, s in enumerate(body) if isinstance(s, ast.Assign) and ast.unparse(s.targets[0]) == "seen_transactions"]
+    if not idx:
+        raise NotGenerated("_schedule_rewrites: `seen_transactions = set()` not found")
+    out = body[idx[0]:]
+    loops_ = [k for k, s in enumerate(out) if isinstance(s, ast.For)]
+    if not loops_:
+        raise NotGenerated("_schedule_rewrites: duplicate-collecting loop not found")
+    return out[:loops_[0] + 1], "duplicate-detection"
+
+
+def _tuple_hook(eng, args, kw, env, pc, line):
+    """tuple(<list of rewrites>): an opaque value that is a function of the list (equal lists give equal tuples; tuples of frozen dataclasses
+    compare element-wise, so equal tuples mean equal lists - the reading the postcondition relies on is stated, not derived)"""
+    from pyvc.values import VObj, OBJ
+    seq = args[0]
+    flat = eng.flatten(seq)
+    return VObj(eng.uf("as_tuple", [t.sort() for t in flat], OBJ)(*flat))
+
+
+dedupe = Unit(
+    "processing", "_schedule_rewrites", slice=slice_dedupe,
+    params={"transaction_rewrites": ("map", TRANSACTION, ("seq", REWRITE))},
+    ensures=[
+        ("marked-duplicate-only-if-an-earlier-transaction-has-the-same-rewrites",
+         "forall(lambda j: implies(0 <= j and j < len(duplicate_transaction_keys), exists(lambda i, e: 0 <= e and e < i and i < len(order())"
+         " and order()[i] == duplicate_transaction_keys[j] and content(order()[e]) == content(order()[i]))))"),
+        ("every-later-copy-is-marked",
+         "forall(lambda i, e: implies(0 <= e and e < i and i < len(order()) and content(order()[e]) == content(order()[i]),"
+         " exists(lambda j: 0 <= j and j < len(duplicate_transaction_keys) and duplicate_transaction_keys[j] == order()[i])))"),
+    ],
+    loops={0: {"inv": [
+        "forall(lambda e: implies(0 <= e and e < _i, content(_iter[e]) in seen_transactions))",
+        "forall_obj(lambda x: implies(x in seen_transactions, exists(lambda e: 0 <= e and e < _i and content(_iter[e]) == x)))",
+        "forall(lambda j: implies(0 <= j and j < len(duplicate_transaction_keys), exists(lambda i, e: 0 <= e and e < i and i < _i"
+        " and _iter[i] == duplicate_transaction_keys[j] and content(_iter[e]) == content(_iter[i]))))",
+        "forall(lambda i, e: implies(0 <= e and e < i and i < _i and content(_iter[e]) == content(_iter[i]),"
+        " exists(lambda j: 0 <= j and j < len(duplicate_transaction_keys) and duplicate_transaction_keys[j] == _iter[i])))",
+    ]}},
+    ghost={"order": "lambda: sorted(transaction_rewrites)", "content": "lambda t: tuple(transaction_rewrites[t])"},
+    calls={"tuple": _tuple_hook}, records=RECORDS, props=("C10", "C06"),
+    local_shapes={"duplicate_transaction_keys": ("seq", TRANSACTION), "seen_transactions": ("set", "obj")},
+)
+dedupe.key_suffix = "duplicate-detection"
+# not registered: the completeness invariant (nested exists under forall over the sorted key sequence) times out in z3 and cvc5;
+# duplicate detection stays bounded (C10 marker drive).  Kept for a later round.
